@@ -8,3 +8,5 @@ import CardVerif.Props.C15
 #print axioms CardVerif.Betting.reset_construct
 #print axioms CardVerif.Betting.reachable_fold_log
 #print axioms CardVerif.Betting.construct_snapshot
+#print axioms CardVerif.C15.reset_own_log
+#print axioms CardVerif.C15.reset_idempotent
